@@ -68,6 +68,8 @@ pub struct RunReport {
     pub sample: Option<Value>,
     /// an equivalent, more direct plan reproducing the reported violation (e.g. one explicit fault set)
     pub narrowed_plan: Option<Value>,
+    /// the harness itself failed (panic located in xsim's own sources, e.g. resource exhaustion): not a verdict
+    pub harness_fault: Option<String>,
 }
 
 impl RunReport {
@@ -165,6 +167,11 @@ pub fn run_caught(engine: &dyn Engine, plan: &Value, focus: &str) -> RunReport {
         Err(_) => {
             let p = take_last_panic().unwrap_or_else(|| "?".into());
             let mut rep = RunReport::default();
+            if p.starts_with("src/") {
+                // a panic in the simulator's own code is a harness fault, never a verdict about /repo
+                rep.harness_fault = Some(p);
+                return rep;
+            }
             rep.violations.push(Violation {
                 property: focus.to_string(),
                 clause: format!("{focus}.panic"),
@@ -219,15 +226,20 @@ pub fn minimise(engine: &dyn Engine, plan: &Value, focus: &str, target: &Violati
     let t0 = Instant::now();
     let mut cur = plan.clone();
     let mut steps = 0u32;
+    let mut executions = 0u32;
     'outer: loop {
         if t0.elapsed().as_secs_f64() > wall_s {
             break;
         }
         for cand in engine.shrink(&cur) {
-            if t0.elapsed().as_secs_f64() > wall_s {
+            executions += 1;
+            if t0.elapsed().as_secs_f64() > wall_s || executions > 400 {
                 break 'outer;
             }
             let rep = run_caught(engine, &cand, focus);
+            if rep.harness_fault.is_some() {
+                break 'outer;
+            }
             if rep.violations.iter().any(|v| v.clause == target.clause && v.site == target.site) {
                 cur = cand;
                 steps += 1;
@@ -252,6 +264,8 @@ pub struct ChunkSummary {
     pub samples: Vec<Value>,
     pub other_property_violations: BTreeMap<String, u64>,
     pub wall_s: f64,
+    #[serde(default)]
+    pub harness_faults: Vec<String>,
 }
 
 #[derive(Serialize, Deserialize, Debug)]
@@ -300,6 +314,10 @@ pub fn worker_main(engine: &dyn Engine, a: WorkerArgs) {
         }
         let plan = engine.gen_plan(a.seed, run, &a.focus, a.tier);
         let rep = run_caught(engine, &plan, &a.focus);
+        if let Some(h) = &rep.harness_fault {
+            summary.harness_faults.push(format!("run {run}: {h}"));
+            break;
+        }
         summary.runs += 1;
         summary.sim_ms += rep.sim_ms;
         for (k, v) in &rep.counters {
@@ -583,6 +601,9 @@ pub fn check_main(engine: &dyn Engine, a: CheckArgs) -> i32 {
     let mut other: BTreeMap<String, u64> = BTreeMap::new();
     summaries.sort_by_key(|s| s.chunk);
     for s in &summaries {
+        for h in &s.harness_faults {
+            harness_errors.push(format!("chunk {}: harness fault: {h}", s.chunk));
+        }
         evaluations += s.runs;
         sim_ms += s.sim_ms;
         for x in &s.nontrivial_sigs {
